@@ -70,6 +70,8 @@ inductive Act where
   | instProvUnlock           -- p.meters = nil; p.mtx.Unlock
   | instOnceDone             -- once.Do returns
   | instStore                -- globalMeterProvider.Store
+  | selfSet                  -- SetMeterProvider(MeterProvider()) while the placeholder is still the global value:
+                             -- `current == mp` guard: Error(…); return — before the once, nothing stored
 deriving DecidableEq, Repr
 
 def upd {α : Type} (f : Nat → α) (k : Nat) (v : α) : Nat → α := fun x => if x = k then v else f x
@@ -253,6 +255,11 @@ def step (old : Bool) (s : St) (t : Nat) (a : Act) : Option St :=
     else none
   | .instStore =>
     if s.frame t = .iStore then some { s with stored := true, frame := upd s.frame t .idle } else none
+  | .selfSet =>
+    -- the guard sits BEFORE `delegateMeterOnce.Do`: the once is not consumed, no field changes.
+    -- (Once the SDK is stored, `current` is no placeholder and the call is an ordinary second
+    -- SetMeterProvider = `instBegin` on the fast path.)
+    if s.frame t = .idle ∧ s.stored = false then some s else none
 
 /-- states reachable in variant `old` -/
 inductive Reachable (old : Bool) : St → Prop where
